@@ -753,3 +753,34 @@ Theorem flatten_order p :
     data_out 0 (trace c) = inner_data (trace c).
 Proof. intros c Hr. exact (order Hr). Qed.
 Print Assumptions flatten_order.
+
+(** * Local steps of C11 (what a single handler does; the theorems above say in which
+      states these handlers can run) *)
+
+(** a Pull goes to the active inner if there is one, else to the outer, else nowhere *)
+Lemma flatten_pull_routing (s : fl_st) :
+  fl_handle (IUp 0 UP) s =
+  (s, [], match fl_inner s with
+          | Some j => ACall (CUp j UP) FlDone
+          | None => if fl_outer s then ACall (CUp 0 UP) FlDone else ARet
+          end).
+Proof. unfold fl_handle. destruct (fl_inner s); [reflexivity|]. destruct (fl_outer s); reflexivity. Qed.
+
+(** an inner source is pulled exactly once on its greeting and becomes the stored one *)
+Lemma flatten_inner_greeting (k : nat) (s : fl_st) :
+  fl_handle (IDn (S k) DH) s =
+  ({| fl_outer := fl_outer s; fl_inner := Some (S k) |}, [], ACall (CUp (S k) UP) FlDone)
+  /\ fl_resume FlDone {| fl_outer := fl_outer s; fl_inner := Some (S k) |}
+     = ({| fl_outer := fl_outer s; fl_inner := Some (S k) |}, [], ARet).
+Proof. split; reflexivity. Qed.
+
+(** a newer inner: the stored one is told to stop (one call), then the new one is subscribed;
+    with none stored the new one is subscribed at once *)
+Lemma flatten_switch_step (v : val) (s : fl_st) :
+  fl_handle (IDn 0 (DD v)) s =
+  (s, [], match fl_inner s with
+          | Some j => ACall (CUp j UT) (FlSubInner (inner_id v))
+          | None => ACall (CSub (S (inner_id v))) FlDone
+          end)
+  /\ forall s', fl_resume (FlSubInner (inner_id v)) s' = (s', [], ACall (CSub (S (inner_id v))) FlDone).
+Proof. split; [unfold fl_handle; destruct (fl_inner s); reflexivity | reflexivity]. Qed.
